@@ -734,7 +734,12 @@ func (ex Executor[Req, Resp]) ExecContext(ctx context.Context) (Resp, error) {
 		var zero Resp
 		return zero, err
 	}
-	return resp.(Resp), nil
+	typed, ok := resp.(Resp)
+	if !ok {
+		var zero Resp
+		return zero, fmt.Errorf("Unexpected response payload type %T", resp)
+	}
+	return typed, nil
 }
 
 // MustExec is like Exec except it panics if the request fails.
